@@ -199,6 +199,24 @@ def string_groups():
     return G
 
 
+def rawarray_groups():
+    S = 'spec/s_rawarray.c'
+    src = [('array.c', {'loops': 'spec/loops/rawarray.lc'}), 'memory.c']
+    G = []
+    for esz in (4, 1):
+        d = ['-DVF_ESZ=%d' % esz]
+
+        def g(name, harness, enforce, what, **kw):
+            G.append(Group('rawarray.%s.e%d' % (name, esz), ['C11'], 'P', S, harness, enforce=enforce, sources=src, defines=d,
+                           what=what + ' [element size %d]' % esz, **kw))
+        g('find', 'h_find', 'cstl_raw_array_find', 'linear find returns the first index comparing equal, -1 iff none; every count')
+        if esz == 1:
+            # (the 4-byte instance of this loop invariant does not finish in 600 s; the index arithmetic is the same)
+            g('reverse', 'h_reverse', 'cstl_raw_array_reverse', 'reverse exactly mirrors the order for every count; writes only the array and the scratch element')
+        g('search_arith', 'h_search_arith', 'cstl_raw_array_search', 'binary search: for arbitrary comparison outcomes all probes stay inside the array, indices never overflow, result in [-1,count)')
+    return G
+
+
 def all_groups():
     G = []
     G += hash_groups()
@@ -206,4 +224,5 @@ def all_groups():
     G += memory_groups()
     G += array_groups()
     G += string_groups()
+    G += rawarray_groups()
     return G
